@@ -52,6 +52,16 @@ def _check_view(st, xs, ys, cap, store_targets, order):
     n = len(xs)
     if len(st) != len(sx) or len(sx) != (min(n, cap) if cap else n):
         return f"holds {len(sx)} after {n} updates with capacity {cap}"
+    if order in ('all', 'last'):
+        # deterministic storages: the exact expected view, by object identity (the same object may arrive more than once)
+        exp_idx = list(range(n)) if order == 'all' else list(range(n - len(sx), n))
+        if len(exp_idx) != len(sx) or any(sx[i] is not xs[j] for i, j in enumerate(exp_idx)):
+            return f"{'batch' if order == 'all' else 'interval'} content {[x.get('id') for x in sx]}, expected arrivals {exp_idx}"
+        if store_targets and (len(sy) != len(sx) or any(sy[i] != ys[j] for i, j in enumerate(exp_idx))):
+            return f"targets {sy} not aligned with arrivals {exp_idx}"
+        if not store_targets and len(sy) != 0:
+            return f"targets kept although store_targets=False: {sy}"
+        return None
     idx = []
     for i, x in enumerate(sx):
         if 'id' not in x or not (0 <= x['id'] < n) or xs[x['id']] is not x:
@@ -99,6 +109,8 @@ def BOUNDED(tier, seed):
                 xs, ys = [], []
                 for t in range(7):
                     x = {'id': t, 'v': t * 10}
+                    if sidx % 4 == 3 and t in (3, 5) and xs and order in ('all', 'last'):
+                        x = xs[-1]      # the SAME dict object arrives again (a caller that re-uses one dict per arrival)
                     # some arrivals carry no target (y omitted / None), one carries a falsy one: the stored target is then None / 0
                     y = None if (sidx % 3 == 1 and t in (1, 4)) else (0 if (sidx % 3 == 2 and t == 2) else f'y{t}')
                     xs.append(x)
